@@ -7,35 +7,64 @@ import ChessVerif.Model.Search
 namespace ChessVerif
 namespace Search
 
-variable {σ π : Type}
+/-- The invariant of the persistent state `σ` (transposition table, histories, generation) under which
+    the component laws are stated.  The skeleton changes `σ` only through `ttStore`, `failHigh` and
+    `nextGen`; `Laws` demands that these preserve `ok` (`ok_store`, `ok_failHigh`, `ok_nextGen`), every
+    search function then preserves it (`Mono.ps_ok`), and so does `go` (`IDPost.ps_ok`,
+    `Props.C06.go_keeps_ps_invariant`).  For the real components: `SearchReal.PSok` (every move word in
+    the table has bit 15 clear, every history cell lies within `±MaxHistory`); for components whose
+    laws hold for every state: `fun _ => True` (then `Laws` is the unconditional structure of the first
+    version of this file, see `Laws.of_unconditional`). -/
+class PsInv (σ : Type) where
+  ok : σ → Prop
+
+variable {σ π : Type} [PsInv σ]
+
+/-- The hash moves a picker can be created with: the move of a table hit on this position in SOME
+    state satisfying the invariant, or 0 (`hashMove` of `alphaBeta`). -/
+def HashOK (c : Comp σ π) (b : Board) (hm : Move) : Prop :=
+  hm = 0 ∨ ∃ ps ply e, PsInv.ok ps ∧ c.ttProbe ps b ply = some e ∧ e.move = hm
 
 /-- The picker states reachable for position `b` and hash move `hm`, with the moves yielded so far
     (newest first).  The persistent state and the history stack consulted by `Next()` may be
-    anything at each step (children update them between two calls). -/
+    anything at each step (children update them between two calls) — any state satisfying the
+    invariant `PsInv.ok`. -/
 inductive Reach (c : Comp σ π) (b : Board) (hm : Move) : π → List Move → Prop where
   | init : Reach c b hm (c.pickInit b hm) []
-  | next {p ys ps hs m p'} : Reach c b hm p ys → c.pickNext ps b hs p = some (m, p') → Reach c b hm p' (m :: ys)
+  | next {p ys ps hs m p'} : Reach c b hm p ys → PsInv.ok ps → c.pickNext ps b hs p = some (m, p') →
+      Reach c b hm p' (m :: ys)
   | weight {p ys w} : Reach c b hm p ys → Reach c b hm (c.setWeight p w) ys
 
 /-- What is assumed about the components.  `Good` is the class of boards on which the board-level
-    properties hold (instantiated by `Board.valid`/`WF` through C01–C05):
-    * C03: undoing a generated move / a null move restores the board;
-    * C02/C01: a generated move that does not leave the own king attacked leads to a `Good` board;
+    properties hold (instantiated by `Board.valid` through C01–C05):
+    * C03: undoing a generated move / a null move restores the board (also at halfmove clock 100:
+      the abort fallback `firstLegal` makes and undoes moves on a root the search itself refuses);
+    * C02/C01: a generated move that does not leave the own king attacked leads to a `Good` board —
+      from a board whose halfmove clock is below 100 (`Board.valid` bounds the clock by 100; every
+      node that makes a move has passed the draw test `b.FiftyCnt >= 100 → return 0`);
     * C05/C16: the picker yields generated moves only, and when it is exhausted it has yielded every
-      generated move; quiescence ranks generated moves;
-    * generated moves are never the null encoding 0. -/
+      generated move — for hash moves the table can answer (`HashOK`) and persistent states
+      satisfying the invariant; quiescence ranks generated moves;
+    * generated moves are never the null encoding 0;
+    * the invariant of the persistent state is preserved by a table store of a generated move of
+      the position (or of 0), by `FailHigh`, and by `gen++`. -/
 structure Laws (c : Comp σ π) (Good : Board → Prop) : Prop where
   undo_make : ∀ b m, Good b → m ∈ MoveGen.gen b →
     (b.makeMove c.keys m).1.undoMove m (b.makeMove c.keys m).2 = b
-  good_make : ∀ b m, Good b → m ∈ MoveGen.gen b → (b.makeMove c.keys m).1.inCheck b.stm = false →
+  good_make : ∀ b m, Good b → b.fifty < 100 → m ∈ MoveGen.gen b → (b.makeMove c.keys m).1.inCheck b.stm = false →
     Good (b.makeMove c.keys m).1
   undo_null : ∀ b, Good b → b.inCheck b.stm = false → (b.makeNull c.keys).1.undoNull (b.makeNull c.keys).2 = b
   good_null : ∀ b, Good b → b.inCheck b.stm = false → Good (b.makeNull c.keys).1
-  pick_mem : ∀ ps b hs hm p ys m p', Good b → Reach c b hm p ys → c.pickNext ps b hs p = some (m, p') → m ∈ MoveGen.gen b
-  pick_complete : ∀ ps b hs hm p ys, Good b → Reach c b hm p ys → c.pickNext ps b hs p = none →
-    ∀ m, m ∈ MoveGen.gen b → m ∈ ys
+  pick_mem : ∀ ps b hs hm p ys m p', Good b → HashOK c b hm → Reach c b hm p ys → PsInv.ok ps →
+    c.pickNext ps b hs p = some (m, p') → m ∈ MoveGen.gen b
+  pick_complete : ∀ ps b hs hm p ys, Good b → HashOK c b hm → Reach c b hm p ys → PsInv.ok ps →
+    c.pickNext ps b hs p = none → ∀ m, m ∈ MoveGen.gen b → m ∈ ys
   q_mem : ∀ ps b hs m w, Good b → (m, w) ∈ c.qMoves ps b hs → m ∈ MoveGen.gen b
   gen_ne_zero : ∀ b m, Good b → m ∈ MoveGen.gen b → m ≠ 0
+  ok_store : ∀ ps b d ply m v bd, PsInv.ok ps → Good b → (m = 0 ∨ m ∈ MoveGen.gen b) →
+    PsInv.ok (c.ttStore ps b d ply m v bd)
+  ok_failHigh : ∀ ps d b p hs, PsInv.ok ps → PsInv.ok (c.failHigh ps d b p hs)
+  ok_nextGen : ∀ ps, PsInv.ok ps → PsInv.ok (c.nextGen ps)
 
 /-- A line of moves each playable (generated, own king not left attacked) in turn. -/
 inductive LegalLine (K : Keys) : Board → List Move → Prop where
@@ -60,22 +89,25 @@ structure Mono (L : Limits) (s s' : St σ) : Prop where
   fuel_mono : s.fuelOut = true → s'.fuelOut = true
   anomaly_mono : s.anomaly = true → s'.anomaly = true
   polls_mono : s.polls ≤ s'.polls
+  /-- the invariant of the persistent state is kept -/
+  ps_ok : PsInv.ok s.ps → PsInv.ok s'.ps
 
 theorem Mono.refl (L : Limits) (s : St σ) : Mono L s s :=
-  ⟨rfl, Int.le_refl _, fun _ h => h, id, id, id, Nat.le_refl _⟩
+  ⟨rfl, Int.le_refl _, fun _ h => h, id, id, id, Nat.le_refl _, id⟩
 
 theorem Mono.trans {L : Limits} {s1 s2 s3 : St σ} (h1 : Mono L s1 s2) (h2 : Mono L s2 s3) : Mono L s1 s3 :=
   ⟨h2.pondering.trans h1.pondering, Int.le_trans h1.nodes_mono h2.nodes_mono,
    fun h0 h => h2.nodes_bound h0 (h1.nodes_bound h0 h), fun h => h2.aborted_mono (h1.aborted_mono h),
    fun h => h2.fuel_mono (h1.fuel_mono h), fun h => h2.anomaly_mono (h1.anomaly_mono h),
-   Nat.le_trans h1.polls_mono h2.polls_mono⟩
+   Nat.le_trans h1.polls_mono h2.polls_mono, fun h => h2.ps_ok (h1.ps_ok h)⟩
 
 /-- `Mono` only looks at these fields. -/
 theorem Mono.of_eq {L : Limits} {s s' : St σ} (h1 : s'.pondering = s.pondering) (h2 : s'.nodes = s.nodes)
-    (h3 : s'.aborted = s.aborted) (h4 : s'.fuelOut = s.fuelOut) (h5 : s'.anomaly = s.anomaly) (h6 : s'.polls = s.polls) :
-    Mono L s s' :=
+    (h3 : s'.aborted = s.aborted) (h4 : s'.fuelOut = s.fuelOut) (h5 : s'.anomaly = s.anomaly) (h6 : s'.polls = s.polls)
+    (h7 : s'.ps = s.ps) : Mono L s s' :=
   ⟨h1, by rw [h2]; exact Int.le_refl _, fun _ h => by rw [h2]; exact h, fun h => by rw [h3]; exact h,
-   fun h => by rw [h4]; exact h, fun h => by rw [h5]; exact h, by rw [h6]; exact Nat.le_refl _⟩
+   fun h => by rw [h4]; exact h, fun h => by rw [h5]; exact h, by rw [h6]; exact Nat.le_refl _,
+   fun h => by rw [h7]; exact h⟩
 
 /-- a search function returned to its caller with board, history stack and move store as it found them. -/
 structure Frame (L : Limits) (s s' : St σ) : Prop where
@@ -85,6 +117,20 @@ structure Frame (L : Limits) (s s' : St σ) : Prop where
   frames : s'.frames = s.frames
 
 theorem Frame.refl (L : Limits) (s : St σ) : Frame L s s := ⟨Mono.refl L s, rfl, rfl, rfl⟩
+
+/-- what a node that makes moves knows about its state: the persistent state satisfies the
+    invariant and the halfmove clock is below 100 (the draw test has been passed). -/
+def NodeOK (s : St σ) : Prop := PsInv.ok s.ps ∧ s.board.fifty < 100
+
+theorem Frame.nodeOK {L : Limits} {s s' : St σ} (h : Frame L s s') (hn : NodeOK s) : NodeOK s' :=
+  ⟨h.mono.ps_ok hn.1, by rw [h.board]; exact hn.2⟩
+
+/-- the hash move `alphaBeta` reads from a table hit (or 0) is one the laws speak about. -/
+theorem hashOK_probe (c : Comp σ π) {ps : σ} (hok : PsInv.ok ps) (b : Board) (ply : Int) :
+    HashOK c b (match c.ttProbe ps b ply with | some e => e.move | none => 0) := by
+  cases h : c.ttProbe ps b ply with
+  | none => exact Or.inl rfl
+  | some e => exact Or.inr ⟨ps, ply, e, hok, h, rfl⟩
 
 theorem Frame.trans {L : Limits} {s1 s2 s3 : St σ} (h1 : Frame L s1 s2) (h2 : Frame L s2 s3) : Frame L s1 s3 :=
   ⟨h1.mono.trans h2.mono, h2.board.trans h1.board, h2.hstack.trans h1.hstack, h2.frames.trans h1.frames⟩
@@ -98,9 +144,10 @@ theorem abort_frame (L : Limits) (s : St σ) : Frame L s (abort L s).2 := by
   · split
     · exact Frame.refl L s
     · split
-      · exact ⟨⟨rfl, Int.le_refl _, fun _ h => h, fun _ => rfl, id, id, Nat.le_succ _⟩, rfl, rfl, rfl⟩
-      · exact ⟨⟨rfl, Int.le_refl _, fun _ h => h, id, id, id, Nat.le_succ _⟩, rfl, rfl, rfl⟩
+      · exact ⟨⟨rfl, Int.le_refl _, fun _ h => h, fun _ => rfl, id, id, Nat.le_succ _, id⟩, rfl, rfl, rfl⟩
+      · exact ⟨⟨rfl, Int.le_refl _, fun _ h => h, id, id, id, Nat.le_succ _, id⟩, rfl, rfl, rfl⟩
 
+omit [PsInv σ] in
 theorem abort_pv (L : Limits) (s : St σ) : (abort L s).2.pv = s.pv ∧ (abort L s).2.ps = s.ps := by
   unfold abort
   split
@@ -109,6 +156,7 @@ theorem abort_pv (L : Limits) (s : St σ) : (abort L s).2.pv = s.pv ∧ (abort L
     · exact ⟨rfl, rfl⟩
     · split <;> exact ⟨rfl, rfl⟩
 
+omit [PsInv σ] in
 /-- `abort` answers `true` exactly when it leaves the flag set. -/
 theorem abort_true_iff (L : Limits) (s : St σ) : (abort L s).1 = (abort L s).2.aborted := by
   unfold abort
@@ -125,15 +173,16 @@ theorem incrementNodes_frame (L : Limits) (s : St σ) : Frame L s (incrementNode
   unfold incrementNodes
   split
   · next h =>
-    refine ⟨⟨rfl, by simp; omega, ?_, id, id, id, Nat.le_refl _⟩, rfl, rfl, rfl⟩
+    refine ⟨⟨rfl, by simp; omega, ?_, id, id, id, Nat.le_refl _, id⟩, rfl, rfl, rfl⟩
     intro h0 hs
     rcases h with h | h
     · omega
     · simp; omega
   · split
-    · exact ⟨⟨rfl, Int.le_refl _, fun _ h => h, fun _ => rfl, id, id, Nat.le_refl _⟩, rfl, rfl, rfl⟩
+    · exact ⟨⟨rfl, Int.le_refl _, fun _ h => h, fun _ => rfl, id, id, Nat.le_refl _, id⟩, rfl, rfl, rfl⟩
     · exact Frame.refl L s
 
+omit [PsInv σ] in
 theorem incrementNodes_pv (L : Limits) (s : St σ) : (incrementNodes L s).pv = s.pv := by
   unfold incrementNodes
   split
